@@ -868,6 +868,12 @@ func (ix *idxProver) sliceOKBasic(s *ssa.Slice) (bool, string) {
 		return false, "bound " + b.String() + " not related to the length of the sliced value"
 	}
 	if need > 0 {
+		// a pointer to an array (what make([]T, const) is lowered to) has its length in its type
+		if pt, ok := X.Type().Underlying().(*types.Pointer); ok {
+			if at, ok := pt.Elem().Underlying().(*types.Array); ok && int64(need) <= at.Len() && len(parts) == 0 {
+				return true, fmt.Sprintf("constant bound %d of an array of %d", need, at.Len())
+			}
+		}
 		n, why := ix.minLen(X, at)
 		if n < need {
 			// slices (not strings) may be resliced up to cap; we only accept len
@@ -884,6 +890,12 @@ func (ix *idxProver) sliceOKBasic(s *ssa.Slice) (bool, string) {
 // assertOK: x.(T) lies past the false edge of a predicate that is
 // `_, is := x.(T); return !is` (or the true edge of `return is`).
 func (ix *idxProver) assertOK(ta *ssa.TypeAssert) (bool, string) {
+	_, _, why, ok := ix.assertGuard(ta)
+	return ok, why
+}
+
+// assertGuard: the branch (block and successor index) past which the asserted value has the asserted type.
+func (ix *idxProver) assertGuard(ta *ssa.TypeAssert) (*ssa.BasicBlock, int, string, bool) {
 	fn := ix.fn
 	for _, b := range fn.Blocks {
 		if len(b.Instrs) == 0 {
@@ -902,7 +914,7 @@ func (ix *idxProver) assertOK(ta *ssa.TypeAssert) (bool, string) {
 					isTEdge = 1
 				}
 				if guarded(ta.Block(), []Edge{{b, isTEdge}}) {
-					return true, "past the ok edge of a comma-ok assertion of the same value to the same type"
+					return b, isTEdge, "past the ok edge of a comma-ok assertion of the same value to the same type", true
 				}
 			}
 			continue
@@ -929,10 +941,10 @@ func (ix *idxProver) assertOK(ta *ssa.TypeAssert) (bool, string) {
 			isTEdge = 1 - isTEdge
 		}
 		if guarded(ta.Block(), []Edge{{b, isTEdge}}) {
-			return true, "past the edge of type predicate " + ix.p.FuncName(g) + " on which the value has the asserted type"
+			return b, isTEdge, "past the edge of type predicate " + ix.p.FuncName(g) + " on which the value has the asserted type", true
 		}
 	}
-	return false, "no dominating type test"
+	return nil, 0, "no dominating type test", false
 }
 
 // typePredicatePolarity: g(x) returns is-T (true) or not-is-T (false).
